@@ -7,6 +7,8 @@ import pathlib
 import random
 import uuid
 from collections import defaultdict, deque
+from collections.abc import Mapping as AbstractMapping
+from collections.abc import Set as AbstractSet
 from itertools import count, tee, zip_longest
 from typing import (
     Any,
@@ -57,6 +59,17 @@ def freeze_value(value: Any) -> Any:
     if isinstance(value, (list, tuple)):
         # Tuples are immutable themselves but may hold mutable values
         return tuple(freeze_value(element) for element in value)
+    if isinstance(value, AbstractMapping):
+        # Mapping-like objects that are not dicts (mappingproxy, UserDict, ...)
+        return frozendict(
+            {
+                dict_key: freeze_value(dict_value)
+                for dict_key, dict_value in value.items()
+            }
+        )
+    if isinstance(value, AbstractSet) and not isinstance(value, frozenset):
+        # Set-like objects that are not sets (dict views, ...)
+        return frozenset(freeze_value(element) for element in value)
     return value
 
 
